@@ -199,14 +199,28 @@ func runC02(c *Ctx) {
 					d := ir.Desc(v)
 					if d == "48" || re(`wamp\.\(\*Call\)\.MessageType`).MatchString(d) {
 						n++
-						okFn := re(`^router\.\(\*dealer\)\.sync(Call|Error|Cancel)$|^router\.\(\*realm\)\.authzMessage$`).MatchString(name)
+						okFn := re(`^router\.\(\*dealer\)\.sync(Call|Error|Cancel|FailCall)$|^router\.\(\*realm\)\.authzMessage$`).MatchString(name)
 						c.R.Check(okFn, r6, name, fmt.Sprintf("ERROR(CALL) literal #%d", n), c.pos(in), "an ERROR of type CALL is built in "+name)
 					}
 				}
 			}
 		}
 	}
-	c.R.Floor(r6, 7)
+	// a result that cannot be passed on (payload-passthru refused) ends the call through syncFailCall: forget, then
+	// one ERROR of type CALL under the caller's own request id
+	fc := dlr + "syncFailCall"
+	c.OnlyCalledFrom(r6, "syncFailCall", `^router\.\(\*dealer\)\.syncFailCall$`, `^router\.\(\*dealer\)\.syncYield$`, 2)
+	c.Fields(r6, fc, "ERROR for the failed call", "wamp.Error", nil, map[string]string{"Type": `^48$`, "Request": `^%invk\.callID\.request$`}, 1)
+	fcSend := dTrySendTo + `%caller, new\(wamp\.Error\)\)$`
+	for _, del := range []string{`^call:builtin:delete\(%d\.invocations, %invkReqID\)$`, `^call:builtin:delete\(%d\.invocationByCall, %invk\.callID\)$`, `^call:builtin:delete\(%d\.calls, %invk\.callID\)$`} {
+		c.Reach(r6, fc, "failed call forgotten before the caller is answered: "+del, ReachSpec{Stop: del, Target: fcSend, Want: false})
+	}
+	c.Reach(r6, fc, "failed call's timer stopped", ReachSpec{Stop: `^call:dyn:%invk\.timerCancel\(\)$`, Cut: []ir.Clause{clause("no timer", T(`^\(%invk\.timerCancel == nil\)$`))}, Target: fcSend, Want: false})
+	c.Has(r6, sy, "the call failed is the one of this invocation, answered to its stored caller",
+		`^call:router\.\(\*dealer\)\.syncFailCall\(%d, %d\.invocations\[`+dInvkKey+`\],ok#0, `+dInvkKey+`, %d\.calls\[%d\.invocations\[`+dInvkKey+`\],ok#0\.callID\],ok#0, `, 2)
+	// no other message reaches the caller from syncYield: every direct send to the stored caller is the RESULT
+	c.HasNot(r6, sy, "no ERROR is sent to the caller directly from syncYield", dTrySendTo+`%d\.calls\[.*\],ok#0, new\(wamp\.Error\)\)$`)
+	c.R.Floor(r6, 15)
 
 	// R7: the end of a callee's session always reaches the dealer (so that R4 applies)
 	const r7 = "C02.R7 a session's end reaches the dealer"
